@@ -637,12 +637,19 @@ def run_case(seed, root, params=None):
         all_files = sorted(g.producer)
         # inputs of custom (non-compiler) steps: multi-output steps, stamp
         # files and always-outdated steps hang off these
-        custom_inputs = sorted({f for st in g.steps.values()
-                                if st['tool'] == 'simtool'
-                                for f in st['reads'] if f.startswith('src/')})
+        custom_inputs = sorted(
+            {f for st in g.steps.values() if st['tool'] == 'simtool'
+             for f in st['reads'] if f.startswith('src/')} |
+            # the precompiled header's source, declared extra_deps, the
+            # header directory's files: edges no compiler depfile carries
+            {f for k, st in g.steps.items()
+             if any(w.endswith('.gch') for w in st['writes'])
+             for f in st['reads'] if f.startswith('src/')} |
+            {f for fs in c.must_edges.values() for f in fs
+             if f.startswith('src/')})
         for i in range(rng.randint(2, params.get('max_edits', 5))):
             x = rng.random()
-            if custom_inputs and x < 0.25:
+            if custom_inputs and x < 0.3:
                 f = rng.choice(custom_inputs)
             elif x < 0.8 or not inter:
                 f = rng.choice(sources)
